@@ -323,3 +323,43 @@ def check_sources(tier='quick', seed=0):
         if np.abs((loop[:4] - c) @ rot).max() > 1e-9 * np.sqrt(area):
             return dict(reproduced=True, cases=cases, clause='square loop is planar, perpendicular to the dipole, centred on it')
     return dict(reproduced=False, cases=cases)
+
+
+def check_source_get_field(seed=0):
+    """Tx*.get_field(grid, frequency), the method through which simulations obtain source fields: along a sequence of calls on the SAME source
+    object (Laplace, frequency-free, frequency domain, in any order) every field carries the nominal moment of the source times strength times
+    -s mu0 (no factor without frequency) and equals get_source_field of a newly made source of the same description."""
+    import emg3d
+    from emg3d import fields
+    cases = 0
+    grid, rng = mk_grid(seed, shape=(6, 5, 4), origin=(-10.0, 3.0, -40.0))
+    nx, ny, nz = grid.nodes_x, grid.nodes_y, grid.nodes_z
+
+    def rnd():
+        return np.array([rng.uniform(nx[1], nx[-2]), rng.uniform(ny[1], ny[-2]), rng.uniform(nz[1], nz[-2])])
+    w2, w4 = np.array([rnd(), rnd()]), np.array([rnd() for _ in range(4)])
+    c = rnd()
+    makers = [('TxElectricDipole', lambda: emg3d.TxElectricDipole(w2, strength=3.5), w2[-1] - w2[0]),
+              ('TxElectricWire', lambda: emg3d.TxElectricWire(w4, strength=0.25), w4[-1] - w4[0]),
+              ('TxElectricPoint', lambda: emg3d.TxElectricPoint((c[0], c[1], c[2], 30.0, 20.0), strength=2.0), emg3d.electrodes.rotation(30.0, 20.0)),
+              ('TxMagneticDipole', lambda: emg3d.TxMagneticDipole((c[0], c[1], c[2], 30.0, 20.0), strength=1.5), None),
+              ('TxMagneticPoint', lambda: emg3d.TxMagneticPoint((c[0], c[1], c[2], 30.0, 20.0), strength=1.5), None)]
+    for name, make, nominal in makers:
+        src = make()
+        for step, freq in enumerate([-2.5, -0.5, None, 1.0, None, -2.5, 7.0]):
+            cases += 1
+            got = src.get_field(grid, freq)
+            ref = fields.get_source_field(grid, make(), freq)
+            scale = np.abs(ref.field).max()
+            if got.field.shape != ref.field.shape or got.field.dtype != ref.field.dtype or np.abs(got.field - ref.field).max() > 1e-12 * scale:
+                return dict(reproduced=True, cases=cases, clause='Tx.get_field(grid, frequency) on a source used before differs from get_source_field of a new, equal source',
+                            source=name, call_number=step + 1, frequency=freq, max_abs_difference=float(np.abs(got.field - ref.field).max()), scale=float(scale),
+                            how='contracts.c0910_concrete.check_source_get_field: one source object, calls with frequencies -2.5, -0.5, None, 1.0, None, -2.5, 7.0')
+            if nominal is not None:
+                fac = src.strength * (-got.smu0 if freq is not None else 1.0)
+                sums = np.array([got.fx.sum(), got.fy.sum(), got.fz.sum()]) / fac
+                if np.abs(sums - nominal).max() > 1e-6 * max(1.0, np.abs(nominal).max()):
+                    return dict(reproduced=True, cases=cases, clause='field of Tx.get_field does not carry the nominal moment times strength times -s mu0',
+                                source=name, call_number=step + 1, frequency=freq, sums=np.real(sums).tolist(), nominal=np.asarray(nominal).tolist(),
+                                how='contracts.c0910_concrete.check_source_get_field')
+    return dict(reproduced=False, cases=cases)
